@@ -6,7 +6,7 @@ Core program JSON:
   ty:   "int" | "bool" | "str" | "arr" | ["rec", R]
   expr: ["int", n] ["bool", b] ["str", s] ["var", x] ["bin", op, l, r] ["un", op, e]
         ["and", l, r] ["or", l, r] ["call", f, [args]] ["idx", a, i] ["fld", r, f]
-        (bin op: add sub mul mod lt le gt ge eq ne concat;  un op: neg not)
+        (bin op: add sub mul div mod lt le gt ge eq ne concat;  un op: neg not)
   stmt: ["decl", x, ty, e] ["assign", x, e] ["newarr", x, [e…]] ["newrec", x, R, [[f, e]…]]
         ["setidx", a, i, e] ["setfld", r, f, e] ["if", c, [thn], [els]] ["while", c, [body]]
         ["for", i, lo, hi, [body]] ["break"] ["continue"] ["ret", e] ["out", e] ["expr", e]
@@ -38,7 +38,7 @@ def getTy (j : Json) : Except String Ty :=
 
 def getBinOp (s : String) : Except String BinOp :=
   match s with
-  | "add" => pure .add | "sub" => pure .sub | "mul" => pure .mul | "mod" => pure .mod
+  | "add" => pure .add | "sub" => pure .sub | "mul" => pure .mul | "div" => pure .div | "mod" => pure .mod
   | "lt" => pure .lt | "le" => pure .le | "gt" => pure .gt | "ge" => pure .ge
   | "eq" => pure .eq | "ne" => pure .ne | "concat" => pure .concat
   | o => throw s!"unknown binary operator {o}"
